@@ -374,10 +374,11 @@ func (w *c05World) ask(t *testing.T, q c05Query, id int, beh int) c05Event {
 		}
 		ev.Sock = true
 		w.called = false
-		cl := &dns.Client{Net: "udp", Timeout: 3 * time.Second, UDPSize: 8192}
-		resp, _, xerr := cl.Exchange(req, w.sockAddr)
+		// (a socket of our own with a buffer for the largest datagram: the client library reads only as
+		// many bytes as the query advertised and would hide an oversized reply behind a read error)
+		resp, wire, xerr := c05RawUDP(req, w.sockAddr)
 		if resp != nil {
-			ev.Wire, ev.TC, ev.An = resp.Len(), resp.Truncated, len(resp.Answer)
+			ev.Wire, ev.TC, ev.An = wire, resp.Truncated, len(resp.Answer)
 			if ro := resp.IsEdns0(); ro != nil {
 				ev.ROpt, ev.ROptSize, ev.ROptVer = true, int(ro.UDPSize()), int(ro.Version())
 			}
@@ -423,6 +424,36 @@ func c05Norm(name string) string {
 		return r
 	}
 	return name
+}
+
+func c05RawUDP(req *dns.Msg, addr string) (resp *dns.Msg, wire int, err error) {
+	b, err := req.Pack()
+	if err != nil {
+		return nil, 0, err
+	}
+	c, err := net.DialTimeout("udp", addr, 2*time.Second)
+	if err != nil {
+		return nil, 0, err
+	}
+	defer c.Close()
+	if _, err = c.Write(b); err != nil {
+		return nil, 0, err
+	}
+	buf := make([]byte, 65535)
+	for {
+		_ = c.SetReadDeadline(time.Now().Add(3 * time.Second))
+		n, rerr := c.Read(buf)
+		if rerr != nil {
+			return nil, 0, rerr
+		}
+		m := new(dns.Msg)
+		if uerr := m.Unpack(buf[:n]); uerr != nil {
+			return nil, n, uerr
+		}
+		if m.Id == req.Id {
+			return m, n, nil
+		}
+	}
 }
 
 // c05Observe records what the client was sent.
